@@ -113,6 +113,14 @@ static std::string doReader(const std::vector<std::string>& a) {
                 XMLSize_t n = buf.getLen();
                 out += std::string("Q:") + (r ? "1" : "0") + ":" + std::to_string((long)n) + ":" + std::to_string((unsigned long long)h) +
                        ":" + showHex(buf.getRawBuffer(), n < 6 ? n : 6, 4) + ":" + std::to_string(colon);
+            } else if (c == 'S' || c == 'U') {
+                buf.reset();
+                bool r = (c == 'S') ? rd->getSpaces(buf) : rd->getUpToCharOrWS(buf, (XMLCh)parseHex(arg, 4)[0]);
+                uint64_t h = 0;
+                for (XMLSize_t i = 0; i < buf.getLen(); i++) h = hstep(h, buf.getRawBuffer()[i]);
+                XMLSize_t n = buf.getLen();
+                out += std::string(1, c) + ":" + (r ? "1" : "0") + ":" + std::to_string((long)n) + ":" + std::to_string((unsigned long long)h) +
+                       ":" + showHex(buf.getRawBuffer(), n < 6 ? n : 6, 4);
             } else if (c == 'm') {
                 buf.reset();
                 rd->movePlainContentChars(buf);
